@@ -54,7 +54,7 @@ class Rec:
         d = self.defs.get(l, [])
         cb = getattr(self, 'ctx_block', None)
         if len(d) > 1 and cb is not None and not (1 <= l <= self.fn.arg_count) and l not in self.fn.borrowed_mut and not self.fn.partial.get(l) \
-                and self.fn.local_ty(l) == 'bool':      # boolean condition variables only: other user variables keep one spelling everywhere
+                and (self.fn.local_ty(l) == 'bool' or not self.fn.local_name(l)):      # condition variables and compiler temporaries: named user variables keep one spelling everywhere
             live = [x for x in d if x[0] == cb or self.fn.reaches(x[0], cb)]
             if len(live) == 1:
                 # the surviving definition must also dominate the use (it is then the value on every path into the block)
